@@ -173,7 +173,7 @@ def gen_mgs(rng, thorough=False):
                 cuts = sorted(rng.randint(0, total) for _ in range(rng.randint(0, 2)))
                 con = [b - a for a, b in zip([0] + cuts, cuts + [total])]
             part.append(con)
-    lb = rng.choice([1, 1, 1, 1, 2, 3])
+    lb = rng.choice([1, 1, 1, 1, 2, 3, 0])
     return {"cls": "MinGenSet", "unit": qstr(unit), "numbers": numbers, "total": total,
             "weight_type": "int" if wint else "float", "max_multiplicity": mult, "lowerbound": lb,
             "partition": part, "remove_complement": rng.random() < 0.85}
